@@ -284,6 +284,26 @@ def directed(recvs, by_name, k):
                 F("checked", L("String"), post=[True, "a_nonempty"], default=["explicit", "d_hello"]),
                 F("negated", L("bool"), post=[False, "m_not"], multiple=True), F("never", L("i64"), **{"with": "w_fail"}, default=["explicit", "d_seven"])],
                post=[True, "ca_ok"], cdefault="explicit")
+    # pairwise coverage: every container option next to every field option and every field type, and every two field
+    # options as siblings of one receiver (the random draw leaves about a fifth of these pairs out)
+    def sink(with_flatten=True):
+        fs = [F("renamed", L("u8"), rename="other_name"), F("dflt", L("bool"), default=["trait"]),
+              F("preset", L("i64"), default=["explicit", "d_seven"]), F("measured", L("i64"), **{"with": "w_len"}),
+              F("refused", L("i64"), **{"with": "w_fail"}), F("mapped", L("String"), post=[False, "m_bang"]),
+              F("checked", L("String"), post=[True, "a_nonempty"]), F("unseen", L("char"), skip=True),
+              F("many", L("u8"), multiple=True), F("boxed", {"t": "box", "e": L("u8")}), F("letter", L("char")),
+              F("switch", L("Flag")), F("table", L("HashMap<String,u8>")), F("maybe", O(L("String"))), F("sub", Rv(deep))]
+        if with_flatten:
+            fs.append(F("rest", Rv(mode_holder), flatten=True))
+        return fs
+    mode_holder = add_struct([F("mode", O(Rv(mode))), F("tint", O(L("String")))])
+    for kw in (dict(), dict(rule="kebab-case"), dict(rule="PascalCase"), dict(cdefault="trait"), dict(cdefault="explicit"),
+               dict(post=[False, "cm_id"]), dict(post=[True, "ca_ok"]), dict(post=[True, "ca_fail"]), dict(auk=True),
+               dict(from_word=True), dict(from_none=True), dict(from_word=True, from_none=True, cdefault="explicit", auk=True)):
+        add_struct(sink(), **kw)
+    add_enum([{"ident": "Sink", "style": "struct", "fields": sink(False)}, {"ident": "Drain", "style": "unit"}], rule="camelCase")
+    add_enum([{"ident": "Sink", "style": "struct", "fields": sink(False)}, {"ident": "Other", "style": "struct", "fields": sink(False), "skip": True}],
+             auk=True)
     return k
 
 
